@@ -16,8 +16,8 @@ def conditions(prop, tier):
         if q and k0 % 2:
             continue
         out.append(dict(name='C03.exec.symbols.k%d' % k0, fn='x_symbols', fixed=dict(k0=k0), timeout=t,
-                        extra_pre=['n <= 2', 'l0 == 0 and 1 <= l1 <= 2 and l2 == 11 and u0 == 0 and u1 == 1 and u2 == 2', 'genTexts'] if q else ['n <= 2 or (l2 < 4 and u2 < 2)'],
-                        bounds=X + '1-%d declarations, first of kind %d, names from the pool: valid JSON equal to the context' % (2 if q else 3, k0)))
+                        extra_pre=['n <= 2', 'l0 == 0 and 1 <= l1 <= 2 and l2 == 11 and u0 == 0 and u1 == 1 and u2 == 2', 'genTexts'] if q else ['l0 == 0 and 1 <= l1 <= 3 and l2 == 11 and u0 == 0 and u1 == 1 and u2 == 2'],
+                        bounds=X + '1-%d declarations, first of kind %d, every kind for the others, names from the pool: valid JSON equal to the context' % (2 if q else 3, k0)))
     out.append(dict(name='C03.exec.revisions', fn='x_revisions', fixed={}, timeout=t,
                     bounds=X + 'MODULE-IDENTITY with 0-3 REVISION clauses'))
     return out
